@@ -102,8 +102,60 @@ def tokStep (cur : Option (Wallet CAddr)) (t : String) : Option (Wallet CAddr) Ã
     | some op => let (w', r) := step derive w op; (some w', s!"{showRes r}/{snapshot w'}")
     | none => (some w, s!"bad-op/{snapshot w}")
 
+/-- GenerateKey n times on the model; the addresses returned, in order (stops at the first error) -/
+def genN (w : Wallet CAddr) : Nat â†’ Wallet CAddr Ã— List CAddr
+  | 0 => (w, [])
+  | n + 1 =>
+    match step derive w .gen with
+    | (w', .addr a) => let (w'', l) := genN w' n; (w'', a :: l)
+    | (w', _) => (w', [])
+
+/-- first position (1-based) where the list is not d1, d2, â€¦ -/
+def firstBad (l : List CAddr) (pos : Nat := 1) : Option (Nat Ã— CAddr) :=
+  match l with
+  | [] => none
+  | a :: r => if a = .d pos then firstBad r (pos + 1) else some (pos, a)
+
+def firstDiff (a b : List CAddr) (pos : Nat := 1) : Option Nat :=
+  match a, b with
+  | [], [] => none
+  | x :: r, y :: t => if x = y then firstDiff r t (pos + 1) else some pos
+  | _, _ => some pos
+
+/-- `conc M K N` on the model: the K wallets do not share anything, so a concurrent run is K independent runs.
+    Wallet i: create (MDK M+i), Init, N Ã— GenerateKey; then restore from the exported MDK and N Ã— GenerateKey. -/
+def concWallet (m n : Nat) : String :=
+  let w0 : Wallet CAddr := create m 1 1 []
+  let (w1, _) := step derive w0 (.init 1)
+  let (w2, gens) := genN w1 n
+  let g := match firstBad gens with
+    | none => s!"seq:{gens.length}"
+    | some (p, a) => s!"bad@{p}:{a.show}"
+  match (exportMDK w2 1).2 with
+  | .mdk (some mk) =>
+    let r0 : Wallet CAddr := create mk 1 2 []
+    let (r1, _) := step derive r0 (.init 1)
+    let (_, regen) := genN r1 gens.length
+    match firstDiff gens regen with
+    | none => s!"{g}/same"
+    | some p => s!"{g}/differs@{p}"
+  | r => s!"{g}/{showRes r}"
+
 def handle (line : String) : String :=
   match fields line with
+  | "probe" :: g :: r :: pairs =>
+    -- the model's derivation is a pure function of (MDK, index): nothing a concurrent caller does can change it
+    if g.toNat?.isSome && r.toNat?.isSome && !pairs.isEmpty &&
+        pairs.all (fun t => match t.splitOn ":" with
+          | [m, i] => m.toNat?.isSome && i.toNat?.isSome
+          | _ => false) && g.toNat?.getD 0 â‰¥ 1
+    then "pure" else "bad-op"
+  | ["conc", m, k, n] =>
+    match m.toNat?, k.toNat?, n.toNat? with
+    | some m, some k, some n =>
+      if k < 1 || k > 64 || n > 100000 then "bad-op"
+      else " ".intercalate ((List.range k).map (fun i => concWallet (m + i) n))
+    | _, _, _ => "bad-op"
   | "case" :: toks =>
     match toks with
     | first :: _ =>
